@@ -1723,7 +1723,66 @@ def gen_SystemPy(repo):
                                 if isinstance(b, ast.If) and any(isinstance(r, ast.Raise) for r in b.body):
                                     bad = _ExprTrMin(rds, {"int(e)": "e", "self.network.nenvironments()": "nenv"}).tr(b.test)
     L.append("/-- `RDSystem.space` setter: a cell environment index for which this holds is rejected (`false` = no validation) -/")
-    L.append("def spaceEnvBad (nenv e : Int) : Bool := %s" % (bad if bad is not None else "false"))
+    L.append("def spaceEnvBad (nenv e : Int) : Bool := %s\n" % (bad if bad is not None else "false"))
+
+    # ---- constructor defaults of the space classes (documented: 1 x 1 x 1 grid, environment 0, cell volume 1 in the SPACE's
+    #      units system, reflecting boundaries; graph node: volume 1, environment 0; edge: surface 1, distance 1)
+    gridsrc = PySrc(repo, "src/strengths/rdgridspace.py")
+    graphsrc = PySrc(repo, "src/strengths/rdgraphspace.py")
+
+    def ctor_defaults(src, cls):
+        fn = src.func("__init__", cls)
+        args = fn.args.args[1:]
+        dfl = fn.args.defaults
+        pad = [None] * (len(args) - len(dfl)) + list(dfl)
+        return [(a.arg, None if v is None else _norm(src, v), v) for a, v in zip(args, pad)]
+
+    def num_default(lst, name, what):
+        """the default of parameter `name` as an exact number when it is a numeric literal, else None (e.g. a unit string:
+        then the value no longer lives in the owner's units system)"""
+        for a, txt, node in lst:
+            if a == name:
+                try:
+                    return const_number(src_of[what], node, {})
+                except AnchorLost:
+                    return None
+        raise AnchorLost("%s.__init__ parameter %s" % (what, name))
+    src_of = {"RDGridSpace": gridsrc, "RDGraphSpaceNode": graphsrc, "RDGraphSpaceEdge": graphsrc, "RDGraphSpace": graphsrc, "RDSystem": rds}
+    dl = {c: ctor_defaults(src_of[c], c) for c in src_of}
+
+    def pairs2(lst):
+        return lean_list(["(%s, %s)" % (lean_str(a), lean_str("<required>" if t is None else t)) for a, t, _ in lst])
+    L.append("/-- constructor signatures with their defaults (normalised source text), in order -/")
+    L.append("def gridCtorDefaults : List (String × String) := %s" % pairs2(dl["RDGridSpace"]))
+    L.append("def graphNodeCtorDefaults : List (String × String) := %s" % pairs2(dl["RDGraphSpaceNode"]))
+    L.append("def graphEdgeCtorDefaults : List (String × String) := %s" % pairs2(dl["RDGraphSpaceEdge"]))
+    L.append("def graphCtorDefaults : List (String × String) := %s" % pairs2(dl["RDGraphSpace"]))
+    L.append("def systemCtorDefaults : List (String × String) := %s" % pairs2(dl["RDSystem"]))
+
+    def opt_rat(v):
+        return "none" if v is None else "(some %s)" % lean_rat(v)
+    L.append("/-- numeric defaults (`none` when the default is not a bare number, i.e. not expressed in the owner's units system) -/")
+    L.append("def gridDefaultCellVol : Option Rat := %s" % opt_rat(num_default(dl["RDGridSpace"], "cell_vol", "RDGridSpace")))
+    L.append("def gridDefaultCellEnv : Option Rat := %s" % opt_rat(num_default(dl["RDGridSpace"], "cell_env", "RDGridSpace")))
+    L.append("def gridDefaultW : Option Rat := %s" % opt_rat(num_default(dl["RDGridSpace"], "w", "RDGridSpace")))
+    L.append("def gridDefaultH : Option Rat := %s" % opt_rat(num_default(dl["RDGridSpace"], "h", "RDGridSpace")))
+    L.append("def gridDefaultD : Option Rat := %s" % opt_rat(num_default(dl["RDGridSpace"], "d", "RDGridSpace")))
+    L.append("def nodeDefaultVolume : Option Rat := %s" % opt_rat(num_default(dl["RDGraphSpaceNode"], "volume", "RDGraphSpaceNode")))
+    L.append("def nodeDefaultEnv : Option Rat := %s" % opt_rat(num_default(dl["RDGraphSpaceNode"], "environment", "RDGraphSpaceNode")))
+    # the boundary conditions a grid starts from (set_boundary_conditions: the literal dict it assigns before applying the argument)
+    sbc = gridsrc.func("set_boundary_conditions", "RDGridSpace")
+    init = None
+    for st in ast.walk(sbc):
+        if isinstance(st, ast.Assign) and _norm(gridsrc, st.targets[0]) == "self._boundary_conditions" and isinstance(st.value, ast.Dict):
+            init = [(const_str(k), const_str(v)) for k, v in zip(st.value.keys, st.value.values)]
+    ini = gridsrc.func("__init__", "RDGridSpace")
+    none_to_empty = any(isinstance(st, ast.If) and _norm(gridsrc, st.test) == "isnone(boundary_conditions)"
+                        and [_norm(gridsrc, b) for b in st.body] == ["boundary_conditions={}"] for st in ini.body)
+    if init is None or not none_to_empty:
+        raise AnchorLost("rdgridspace.py: initial boundary conditions")
+    L.append("/-- boundary conditions of a grid built without the argument (`None` -> `{}` -> this dictionary) -/")
+    L.append("def gridDefaultBoundary : List (String × String) := %s" %
+             lean_list(["(%s, %s)" % (lean_str(a), lean_str(b)) for a, b in init]))
     L.append("\nend Strengths.Gen")
     return "\n".join(L) + "\n"
 
